@@ -12,13 +12,15 @@ import (
 // accesses are violations.
 
 var trackedTypes = map[string]bool{
-	"Raft": true, "follower": true, "operationManager": true, "lease": true, "persistentLog": true,
+	"Raft": true, "follower": true, "operationManager": true, "lease": true, "persistentLog": true, "LogEntry": true,
 }
 
 var lockUnits = map[string]bool{
 	"sendRequestVote": true, "sendAppendEntries": true, "electionLoop": true, "election": true, "commitLoop": true,
 	"applyLoop": true, "readOnlyLoop": true, "snapshotLoop": true, "takeSnapshot": true, "heartbeatLoop": true,
 	"electionTicker": true, "start": true, "NewRaft": true,
+	// what the bundled transport does with a request after the sender released the node lock
+	"makeProtoAppendEntriesRequest": true, "makeProtoRequestVoteRequest": true, "makeProtoInstallSnapshotRequest": true,
 }
 
 // stackRecvIsRaft reports whether the named function on the stack is a method of *Raft.
@@ -106,6 +108,16 @@ func (ex *Exec) lockAccess(c *Cell, write bool) {
 	switch fr.fn.Name() {
 	case "newOperationManager", "newLease":
 		return
+	}
+	// initialising stores into an object allocated by this very function activation
+	if write {
+		root := c
+		for root.Parent != nil {
+			root = root.Parent
+		}
+		if root.born != nil && root.born == fr {
+			return
+		}
 	}
 	k := typ + "." + field + "|"
 	if write {
